@@ -29,17 +29,17 @@ returned dictionary / content) -/
 structure StructDec where
   xref : Dict → Bytes → Outcome (XTable × Nat × Dict)
   objstm : Dict → Bytes → Outcome (Dict × Bytes × List (ObjId × Obj))
-  /-- an object-stream container whose content could NOT be delimited while parsing (no usable Length): `none` = it is
-  deferred like any other such stream (the reading of Model/Read.lean); `some (d', c')` = `ObjectStream::new` ran on the
-  still-empty stream — it is kept as `d'` / `c'`, contributes no members and is NOT completed later (lopdf: the deferred
-  list is filled only in the `else` branch of the ObjStm test) -/
+  /-- an object-stream container whose content could NOT be delimited while parsing (no usable Length):
+  `some (d', c')` = `ObjectStream::new` ran on the still-empty stream — it is kept as `d'` / `c'`, contributes no members
+  and is NOT completed later (lopdf: the deferred list is filled only in the `else` branch of the ObjStm test);
+  `none` = deferred like any other such stream (not used by the two instances) -/
   deferred : Dict → Outcome (Option (Dict × Bytes))
 
 def plainDec : StructDec :=
   { xref := decodeXrefStream,
     objstm := fun d c => match objStmObjects d c with
       | .ok l => .ok (d, c, l) | .err e => .err e | .panic s => .panic s,
-    deferred := fun _ => .ok none }
+    deferred := fun d => if d.has FILTER then .err "ext" else .ok (some (d, [])) }
 
 /-! ### the specification codecs as `Ext` -/
 
